@@ -14,7 +14,7 @@ var archOrder = []string{"x86_64", "i386", "arm", "aarch64"}
 // the next one, the highest number, and the third lowest.
 func smallNames(tab map[string]int) []string {
 	ns := sortedNamesByNumber(tab)
-	return []string{ns[0], ns[1], ns[len(ns)-1], ns[2]}
+	return []string{ns[0], ns[1], ns[len(ns)-1], ns[2], ns[len(ns)/2], ns[3]}
 }
 
 type policyFamily struct {
@@ -204,6 +204,25 @@ func init() {
 			if err != nil {
 				return nil, err
 			}
+			if c.Tier == "thorough" {
+				// a wider name-only family: up to 4 groups, 3 names per group, 5 distinct names, weight <= 10
+				wide := EnumPolicyShapesLim(10, nil, true, ShapeLimits{Groups: 4, Names: 3, Entries: 0, Conds: 0, DistinctNames: 5})
+				for ai, a := range archOrder {
+					tab, err := c.ArchTable(archVars[a])
+					if err != nil {
+						return nil, err
+					}
+					names := smallNames(tab)
+					for i, s := range wide {
+						if i%4 != ai {
+							continue // each shape on one architecture, rotating
+						}
+						p := s.Params(a, 0, names, true)
+						p["props"] = "C01"
+						jobs = append(jobs, run.Job{ID: fmt.Sprintf("wide/%s/%d:%s", a, i, s.String()), Pkg: run.Module, Harness: "H_Policy", Params: p})
+					}
+				}
+			}
 			lj, err := largeNameJobs(c, "C01", archs, boundaryNames)
 			if err != nil {
 				return nil, err
@@ -212,7 +231,7 @@ func init() {
 		},
 		CoverEvery: []string{"assembled"},
 		NeedCovers: []string{"cover.group0", "cover.group1", "cover.default"},
-		Bounds:     map[string]interface{}{"small": "all name-only structures with <=3 groups, <=2 names per group, every equality pattern over <=4 names (weight <=7 quick, <=9 thorough)", "large": "whole table in 1, 2 and 3 groups; 248..259 names (around the 255/256 switch of the architecture jump), also followed by a second group", "architectures": "quick: x86_64 + one seed-rotated; thorough: x86_64, i386, arm, aarch64", "values": "all events, all default actions, all group action words"},
+		Bounds:     map[string]interface{}{"small": "all name-only structures with <=3 groups, <=2 names per group, every equality pattern over <=4 names (weight <=7 quick, <=9 thorough); thorough also all name-only structures with <=4 groups, <=3 names per group, <=5 distinct names, weight <=10 (each on one of the four architectures)", "large": "whole table in 1, 2 and 3 groups; 248..259 names (around the 255/256 switch of the architecture jump), also followed by a second group", "architectures": "quick: x86_64 + one seed-rotated; thorough: x86_64, i386, arm, aarch64", "values": "all events, all default actions, all group action words"},
 		Outside:    policyOutside, Assumptions: policyAssumptions, Trusted: policyTrusted,
 	})
 	register(&Spec{
@@ -233,6 +252,17 @@ func init() {
 				return nil, err
 			}
 			if c.Tier == "thorough" {
+				// the small shapes once more with other pairs of operations (all eight occur)
+				for k, ops := range [][]string{{"NotEqual", "LessThan"}, {"GreaterOrEqual", "LessOrEqual"}, {"BitsSet", "BitsNotSet"}} {
+					extra, err := smallJobs(c, policyFamily{prop: "C03", condOnly: true}, 7, ops)
+					if err != nil {
+						return nil, err
+					}
+					for i := range extra {
+						extra[i].ID = fmt.Sprintf("ops%d/", k) + extra[i].ID
+					}
+					jobs = append(jobs, extra...)
+				}
 				// third operation shape up to weight 8
 				extra := EnumPolicyShapes(8, []string{"Equal", "GreaterThan", "BitsNotSet"}, true)
 				tab, err := c.ArchTable("X86_64")
@@ -267,7 +297,7 @@ func init() {
 		},
 		CoverEvery: []string{"assembled"},
 		NeedCovers: []string{"cover.group0", "cover.group1", "cover.default"},
-		Bounds:     map[string]interface{}{"small": "all structures with conditions: <=3 groups, <=2 unconditional names and <=2 conditional entries per group (same name twice = merged OR-lists), <=2 conditions per list, operations {Equal, GreaterThan} (+BitsNotSet to weight 8 in thorough); weight <=7 quick, <=9 thorough", "large": "quick: 64x1 and 22x3 lists x conditions; thorough: also 70x1, 11x6, 130x1 and 300 conditional syscalls; each first/middle/last among other entries and followed by a second group", "values": "all events, operands, argument indices (small shapes), actions"},
+		Bounds:     map[string]interface{}{"small": "all structures with conditions: <=3 groups, <=2 unconditional names and <=2 conditional entries per group (same name twice = merged OR-lists), <=2 conditions per list, operations {Equal, GreaterThan} (+BitsNotSet to weight 8 in thorough; thorough also repeats weight <=7 with {NotEqual,LessThan}, {GreaterOrEqual,LessOrEqual}, {BitsSet,BitsNotSet}, so all eight operations occur); weight <=7 quick, <=9 thorough", "large": "quick: 64x1 and 22x3 lists x conditions; thorough: also 70x1, 11x6, 130x1 and 300 conditional syscalls; each first/middle/last among other entries and followed by a second group", "values": "all events, operands, argument indices (small shapes), actions"},
 		Outside:    policyOutside, Assumptions: policyAssumptions, Trusted: policyTrusted,
 	})
 	register(&Spec{
